@@ -2,7 +2,7 @@
 # re-run the whole mutant catalogue against the current /repo HEAD; writes mutants/RESULTS.md
 # usage: tools/run_mutants.sh [pattern]      (each mutant: scratch worktree under /tmp, quick tier of its property)
 cd "$(dirname "$0")/.."; here=$PWD
-out=mutants/RESULTS.md
+out=${MUT_OUT:-mutants/RESULTS.md}
 tmp=$(mktemp)
 echo "# Mutant catalogue results ($(date -u +%F), /repo $(git -C /repo rev-parse --short HEAD), quick tier, VERIF_SEED=${VERIF_SEED:-1})" > $tmp
 echo >> $tmp
